@@ -43,6 +43,12 @@ pub enum Item {
     /// the same additions / probes WITHOUT a tag (must not produce a tagged record)
     UntaggedImportFunc,
     UntaggedProbe,
+    /// a tagged request for a type the base already has ([] -> []): nothing is added, so no record may
+    /// describe the pre-existing type
+    TypeSameAsBase,
+    /// an untagged request for the shape of the most recent tagged `Type` of the history (no-op without
+    /// one): the earlier tagged addition must still be reported
+    TypeAgainUntagged,
 }
 
 #[derive(Clone, Debug, Serialize, Deserialize)]
@@ -100,7 +106,16 @@ fn apply<'a>(module: &mut Module<'a>, items: &[Item]) -> Vec<Expect> {
             Item::Type => {
                 let params: Vec<DataType> = (0..=k).map(|_| DataType::I64).collect();
                 module.types.add_func_type(&params, &[DataType::F32], Some(tag.clone()));
-                exp.push(Expect { tag: tag_of(k), kind: InjectType::Type, what: format!("params={} results=1", k + 1), marker: None, plain_probe: false });
+                exp.push(Expect { tag: tag_of(k), kind: InjectType::Type, what: format!("{:?}->{:?}", params, [DataType::F32]), marker: None, plain_probe: false });
+            }
+            Item::TypeSameAsBase => {
+                module.types.add_func_type(&[], &[], Some(tag.clone()));
+            }
+            Item::TypeAgainUntagged => {
+                if let Some(k0) = items[..k].iter().rposition(|x| *x == Item::Type) {
+                    let params: Vec<DataType> = (0..=k0).map(|_| DataType::I64).collect();
+                    module.types.add_func_type(&params, &[DataType::F32], None);
+                }
             }
             Item::ImportFunc | Item::UntaggedImportFunc => {
                 let ty = module.types.add_func_type(&[], &[], None);
@@ -158,7 +173,18 @@ fn apply<'a>(module: &mut Module<'a>, items: &[Item]) -> Vec<Expect> {
                 let at = probe_site(mode);
                 // the probe calls local function $l1 by the ID the caller holds (2): its index shifts when
                 // an import is added, and the record must show the index of the ENCODED module
-                let code: Vec<Operator> = vec![Operator::I32Const { value: marker }, Operator::Drop, Operator::Call { function_index: L1 }];
+                // ... and reads local memory $m0 (ID 1) and local global $g0 (ID 1), whose indices shift when
+                // an imported memory / global is added
+                let code: Vec<Operator> = vec![
+                    Operator::I32Const { value: marker },
+                    Operator::Drop,
+                    Operator::Call { function_index: L1 },
+                    Operator::I32Const { value: 0 },
+                    Operator::I32Load { memarg: wasmparser::MemArg { align: 2, max_align: 2, offset: 0, memory: 1 } },
+                    Operator::Drop,
+                    Operator::GlobalGet { global_index: 1 },
+                    Operator::Drop,
+                ];
                 if api == 0 {
                     let mut iter = ModuleIterator::new(module, &vec![]);
                     loop {
@@ -275,7 +301,7 @@ fn flatten(kind: InjectType, inj: &Injection) -> Rec {
     match inj {
         Injection::Import { module, name, tag, .. } => Rec { kind, tag: tag.data().clone(), desc: format!("{}.{}", module, name), body: vec![], mode: String::new() },
         Injection::Export { name, tag, .. } => Rec { kind, tag: tag.data().clone(), desc: name.clone(), body: vec![], mode: String::new() },
-        Injection::Type { ty, tag } => Rec { kind, tag: tag.data().clone(), desc: format!("params={} results={}", ty.params().len(), ty.results().len()), body: vec![], mode: String::new() },
+        Injection::Type { ty, tag } => Rec { kind, tag: tag.data().clone(), desc: format!("{:?}->{:?}", ty.params(), ty.results()), body: vec![], mode: String::new() },
         Injection::Memory { initial, tag, .. } => Rec { kind, tag: tag.data().clone(), desc: format!("{}", initial), body: vec![], mode: String::new() },
         Injection::PassiveData { data, tag } => Rec { kind, tag: tag.data().clone(), desc: format!("{:?}", data), body: vec![], mode: String::new() },
         Injection::ActiveData { data, tag, .. } => Rec { kind, tag: tag.data().clone(), desc: format!("{:?}", data), body: vec![], mode: String::new() },
@@ -364,6 +390,11 @@ fn run_case(c: &Case) -> Outcome {
     };
     let l1_index = view.func_imports.len() as u32 + view.local_funcs.iter().position(|f| f.marker == Some(1)).map(|p| p as u32).unwrap_or(u32::MAX);
     let call_l1 = format!("Call {{ function_index: {} }}", l1_index);
+    // index of $m0 (the local memory with 16 pages) and of $g0 (the local global initialised to 5)
+    let m0_index = view.mem_imports.len() as u32 + view.local_mems.iter().position(|m| *m == 16).map(|p| p as u32).unwrap_or(u32::MAX);
+    let g0_index = view.global_imports.len() as u32;
+    let load_m0 = format!("memory: {} }}", m0_index);
+    let get_g0 = format!("GlobalGet {{ global_index: {} }}", g0_index);
     for e in exp.iter() {
         let mine: Vec<&Rec> = recs.iter().filter(|r| r.tag == e.tag).collect();
         let what = if e.kind == InjectType::Probe { format!("probe {}", e.what) } else { format!("{}", e.kind) };
@@ -398,6 +429,14 @@ fn run_case(c: &Case) -> Outcome {
                                 let calls: Vec<&String> = r.body.iter().filter(|o| o.starts_with("Call")).collect();
                                 o.fail(format!("record-body index-space {}", what), format!("the encoded module calls $l1 as {}, the record says {:?}", call_l1, calls));
                             }
+                            if e.kind == InjectType::Probe && !r.body.iter().any(|o| o.starts_with("I32Load") && o.contains(&load_m0)) {
+                                let loads: Vec<&String> = r.body.iter().filter(|o| o.starts_with("I32Load")).collect();
+                                o.fail(format!("record-body index-space memory {}", what), format!("in the encoded module $m0 is memory {}, the record says {:?}", m0_index, loads));
+                            }
+                            if e.kind == InjectType::Probe && !r.body.iter().any(|o| *o == get_g0) {
+                                let gets: Vec<&String> = r.body.iter().filter(|o| o.starts_with("GlobalGet")).collect();
+                                o.fail(format!("record-body index-space global {}", what), format!("in the encoded module $g0 is global {}, the record says {:?}", g0_index, gets));
+                            }
                             if e.plain_probe && r.mode != e.what {
                                 o.fail(format!("tagged-item mode-differs {}", what), format!("record mode {}", r.mode));
                             }
@@ -417,7 +456,7 @@ fn run_case(c: &Case) -> Outcome {
         if !r.tag.is_empty() && !exp.iter().any(|e| e.tag == r.tag) {
             o.fail(format!("unexpected-tagged-record {}", r.kind), format!("tag {:?} desc {}", r.tag, r.desc));
         }
-        if matches!(r.desc.as_str(), "env.fi0" | "env.gi0" | "env.mi0" | "e_l1") {
+        if matches!(r.desc.as_str(), "env.fi0" | "env.gi0" | "env.mi0" | "e_l1") || (r.kind == InjectType::Type && matches!(r.desc.as_str(), "[]->[]" | "[I32]->[I32]")) {
             o.fail(format!("record-for-pre-existing-item {}", r.kind), r.desc.clone());
         }
     }
@@ -426,7 +465,7 @@ fn run_case(c: &Case) -> Outcome {
 
 pub fn check(tier: Tier) -> i32 {
     let mut run = Run::new("C23", tier, "model_checking");
-    let mut alphabet = vec![Item::Type, Item::ImportFunc, Item::ImportGlobal, Item::ImportMemory, Item::Export, Item::Func, Item::Global, Item::Memory, Item::PassiveData, Item::ActiveData, Item::UntaggedImportFunc, Item::UntaggedProbe];
+    let mut alphabet = vec![Item::Type, Item::ImportFunc, Item::ImportGlobal, Item::ImportMemory, Item::Export, Item::Func, Item::Global, Item::Memory, Item::PassiveData, Item::ActiveData, Item::UntaggedImportFunc, Item::UntaggedProbe, Item::TypeSameAsBase, Item::TypeAgainUntagged];
     for mode in [PMode::Before, PMode::After, PMode::Alternate, PMode::SemanticAfterBlock, PMode::SemanticAfterBr, PMode::BlockEntry, PMode::BlockExit, PMode::BlockAlt, PMode::FuncEntry, PMode::FuncExit] {
         for api in 0..2u8 {
             alphabet.push(Item::Probe { mode, api });
@@ -463,7 +502,7 @@ pub fn check(tier: Tier) -> i32 {
         frontier = next;
     }
     run.rule = format!(
-        "all histories of length <= {} over 32 operations: tagged additions of every kind (type, function/global/memory import, export, built function, global, memory, passive and active data), tagged probes of every mode (before, after, alternate, semantic-after on a block and on a br, block-entry, block-exit, block-alt, function entry/exit) through the module iterator (append_to_tag) and the function modifier (append_tag_at), plus untagged additions and probes, on a base that already has an item of every kind. Two replays per history: one calls pull_side_effects(), the other encode(). Oracle: for every tag exactly one record of the item's kind carries it (special-mode probes: at least one), with the item's content; a probe's / function's record body contains the item's code and calls $l1 by its index in the ENCODED module; no non-empty tag appears that was never attached; no record describes a pre-existing item. Records with empty tags are tolerated.",
+        "all histories of length <= {} over 34 operations: tagged additions of every kind (type, function/global/memory import, export, built function, global, memory, passive and active data), tagged probes of every mode (before, after, alternate, semantic-after on a block and on a br, block-entry, block-exit, block-alt, function entry/exit) through the module iterator (append_to_tag) and the function modifier (append_tag_at), plus untagged additions and probes, a tagged request for a type the base already has and an untagged re-request of a tagged type, on a base that already has an item of every kind. Two replays per history: one calls pull_side_effects(), the other encode(). Oracle: for every tag exactly one record of the item's kind carries it (special-mode probes: at least one), with the item's content; a probe's / function's record body contains the item's code and refers to function $l1, memory $m0 and global $g0 by their indices in the ENCODED module; no non-empty tag appears that was never attached; no record describes a pre-existing item. Records with empty tags are tolerated.",
         depth
     );
     run.run_cases("tagged histories", &cases, run_case);
